@@ -13,7 +13,11 @@ open QExPy.Expr
 /-! ### x-range masking -/
 
 theorem inRange_iff (lo hi x : ℝ) : inRange lo hi x = true ↔ lo ≤ x ∧ x < hi := by
-  simp [inRange]
+  -- the regenerated element test of the x-range mask, in whatever spelling
+  simp only [inRange, Gen.plotInRange, num_le, num_lt, Bool.and_eq_true, Bool.or_eq_true,
+    Bool.not_eq_true', Bool.not_eq_eq_eq_not, Bool.not_true, decide_eq_true_eq,
+    decide_eq_false_iff_not] <;>
+  first | exact Iff.rfl | grind
 
 /-- masking the four arrays one by one with the mask computed from x = filtering the rows -/
 theorem mask_zip4 (p : ℝ → Bool) :
@@ -151,7 +155,7 @@ theorem C19_band (f : Func ℝ) (dom : Option (ℝ × ℝ)) (r : ℝ × ℝ) (h 
       .band xs (xs.map fun x => (f.valErr x).1 - (f.valErr x).2)
                (xs.map fun x => (f.valErr x).1 + (f.valErr x).2)] ∧
     f.draw false dom = [.curve xs (xs.map fun x => (f.valErr x).1)] := by
-  simp [Func.draw, h, Func.xsOn, List.map_map, Function.comp_def]
+  simp [Func.draw, h, Func.xsOn, Gen.plotCurvePoints, List.map_map, Function.comp_def]
 
 /-- the range a function is sampled on: its own when given, else the plot's domain -/
 theorem C19_function_range (f : Func ℝ) (dom : Option (ℝ × ℝ)) :
@@ -463,8 +467,8 @@ theorem C19_label (p : Plot ℝ) :
     (∀ (o : String) l, o ≠ "" → pick o l = o) ∧
     (∀ l, pick "" l = firstNonEmpty l) := by
   refine ⟨rfl, rfl, ?_, ?_, ?_, ?_⟩
-  · intro n; simp [axisLabel]
-  · intro n u hu; simp [axisLabel, hu, String.append_assoc]
+  · intro n; simp [axisLabel, Gen.plotAxisLabel]
+  · intro n u hu; simp [axisLabel, Gen.plotAxisLabel, hu, String.append_assoc]
   · intro o l ho; simp [pick, ho]
   · intro l; simp [pick]
 
